@@ -3,6 +3,7 @@ package main
 // Models for net/http, net/url, context, crypto stubs, database stubs, singleflight.
 
 import (
+	"os"
 	"fmt"
 	"go/types"
 	"net/http"
@@ -301,10 +302,45 @@ func addHTTP(m map[string]Intrinsic) {
 		cancel := &FuncV{Name: "cancel", Native: func(vm *VM, a []Value) Value {
 			if !ch.Obj.Val.(*ChanData).Closed {
 				vm.chanClose(ch)
+				vm.fireAfterFuncs(ch)
 			}
 			return nil
 		}}
 		return TupleV{ctx, cancel}
+	}
+	// context.AfterFunc(ctx, f): f runs in its own goroutine once ctx is done (at once if it
+	// already is); the returned stop() keeps an f that has not started from running
+	m["context.AfterFunc"] = func(vm *VM, fn *ssa.Function, args []Value) Value {
+		ctx, _ := args[0].(IfaceV)
+		var ch ChanV
+		if sv, ok := ctx.V.(*StructV); ok && len(sv.F) > 0 {
+			ch, _ = sv.F[0].(ChanV)
+		}
+		rec := &afterFuncRec{f: args[1]}
+		if os.Getenv("GOSYM_LOOPDBG") != "" {
+			fmt.Fprintf(os.Stderr, "AFTERFUNC ctx=%s chObj=%v closed=%v\n", showValue(args[0]), ch.Obj != nil, ch.Obj != nil && ch.Obj.Val.(*ChanData).Closed)
+		}
+		stop := &FuncV{Name: "stopAfterFunc", Native: func(vm *VM, a []Value) Value {
+			was := !rec.started && !rec.stopped
+			rec.stopped = true
+			return mkBool(was)
+		}}
+		if ch.Obj == nil {
+			return stop // a context that is never done (Background)
+		}
+		if ch.Obj.Val.(*ChanData).Closed {
+			vm.startAfterFunc(rec)
+			return stop
+		}
+		vm.afterFuncs[ch.Obj] = append(vm.afterFuncs[ch.Obj], rec)
+		return stop
+	}
+	m["(*golang.org/x/sync/singleflight.Group).Forget"] = func(vm *VM, fn *ssa.Function, args []Value) Value {
+		vm.P.env["singleflight.forgotten"] = tTrue
+		if os.Getenv("GOSYM_LOOPDBG") != "" {
+			fmt.Fprintf(os.Stderr, "FORGET\n")
+		}
+		return nil
 	}
 	m["vocab.vCancelledCtx"] = func(vm *VM, fn *ssa.Function, args []Value) Value {
 		ch := ChanV{Obj: vm.newObject(&ChanData{Closed: true}, nil, "ctx.done")}
@@ -716,11 +752,29 @@ func addHTTP(m map[string]Intrinsic) {
 	m["(*golang.org/x/sync/singleflight.Group).Do"] = func(vm *VM, fn *ssa.Function, args []Value) Value {
 		key := args[1]
 		vm.P.env["singleflight.lastkey"] = key
+		if os.Getenv("GOSYM_LOOPDBG") != "" {
+			_, fg := vm.P.env["singleflight.forgotten"]
+			fmt.Fprintf(os.Stderr, "DO mode=%v forgotten=%v\n", vm.P.env["singleflight.mode"], fg)
+		}
 		mode := 0
 		if v, ok := vm.P.env["singleflight.mode"]; ok {
 			mode = int(v.(*Term).Int())
 		}
+		if _, forgotten := vm.P.env["singleflight.forgotten"]; forgotten && mode == 1 {
+			// the key was forgotten while the flight was in progress: a caller that arrives now
+			// does not join it but starts a flight of its own (documented Forget semantics)
+			delete(vm.P.env, "singleflight.forgotten")
+			r := vm.callValue(args[2], nil, nil).(TupleV)
+			return TupleV{r[0], r[1], tFalse}
+		}
 		if mode == 1 {
+			if _, ok := vm.P.env["singleflight.result"]; !ok && vm.co != nil {
+				// the flight it joined is still in progress: wait for its result
+				vm.block("singleflight: waiting for the flight in progress", func() bool {
+					_, done := vm.P.env["singleflight.result"]
+					return done
+				})
+			}
 			prev, ok := vm.P.env["singleflight.result"]
 			if !ok {
 				panic(vm.fail("singleflight follower without a leader result"))
@@ -730,6 +784,7 @@ func addHTTP(m map[string]Intrinsic) {
 			return TupleV{r[0], r[1], tTrue}
 		}
 		vm.lockEventLog("callback", nil, true)
+		delete(vm.P.env, "singleflight.result") // a new flight: joiners wait for ITS result
 		r := vm.callValue(args[2], nil, nil).(TupleV)
 		vm.raceRelease("singleflight", true)
 		vm.P.env["singleflight.result"] = r
@@ -811,4 +866,27 @@ func (vm *VM) globalIface(pkg, name string) Value {
 		return vm.sentinel(pkg + "." + name)
 	}
 	return vm.globalObj(g).Val
+}
+
+
+type afterFuncRec struct {
+	f       Value
+	started bool
+	stopped bool
+}
+
+func (vm *VM) startAfterFunc(rec *afterFuncRec) {
+	if rec.started || rec.stopped {
+		return
+	}
+	rec.started = true
+	fv, _ := rec.f.(*FuncV)
+	vm.P.pending = append(vm.P.pending, &pendingGo{fn: fv, label: "context.AfterFunc", tid: vm.newTid()})
+}
+
+func (vm *VM) fireAfterFuncs(ch ChanV) {
+	for _, rec := range vm.afterFuncs[ch.Obj] {
+		vm.startAfterFunc(rec)
+	}
+	delete(vm.afterFuncs, ch.Obj)
 }
